@@ -277,7 +277,11 @@ func c13(p *Prog, r *Report) {
 		retValueIs(p, r, R5, fn, "SEQUENCE{INTEGER r, INTEGER s}", wantEnc)
 	}
 
-	// ---- R6 reference agreement
+	ecdsaReferenceAgreement(p, r, R6)
+}
+
+// ecdsaReferenceAgreement: E7 on ecdsa/ecdsa.go against GOROOT crypto/ecdsa.
+func ecdsaReferenceAgreement(p *Prog, r *Report, R6 string) {
 	gr := goroot()
 	refDir := filepath.Join(gr, "src", "crypto", "ecdsa")
 	ref, err := parseDir(refDir, func(n string) bool { return strings.Contains(n, "s390x") || n == "boring.go" })
